@@ -10,4 +10,7 @@ if [ ! -x "$here/build/bin/instrument" ] || [ "$here/tools/instrument/main.go" -
 fi
 args=()
 for r in "$@"; do args+=(-replace "$r"); done
-"$here/build/bin/instrument" -mode maporder,sync,clock -out "$out" -gen "$here/build/gen-c17" -rt "$here/overlay/zzverifrt.go.txt" -report "$here/build/gen-c17-sites.json" "${args[@]}"
+gen="$here/build/gen-c17"; report="$here/build/gen-c17-sites.json"
+# a mutant run (tools/mutrun.sh) gets its own generated files: it may run next to the real check
+case "$(basename "$out")" in *-mut-*) gen="$here/build/gen-$(basename "$out" .json)"; report="$gen-sites.json";; esac
+"$here/build/bin/instrument" -mode maporder,sync,clock -out "$out" -gen "$gen" -rt "$here/overlay/zzverifrt.go.txt" -report "$report" "${args[@]}"
